@@ -44,7 +44,7 @@ CHECKS = {
          "clear sign bit. The Lean parser, SHA-256d (native) and serialiser are an independent implementation: every synthetic transaction (independent "
          "harness serialiser; empty/one-byte/non-standard scripts, coinbase, counts across 252/253), the repository's raw vectors and every transaction "
          "of real mainnet blocks (250000, 330000; thorough: 625007, 629999, 722010 = 8469 transactions) is parsed by both; fields, txid, block hash, "
-         "target, both block readers and byte-exact re-serialisation are compared. Found and fixed through this check: F31, F32, F30a, F49 (segwit coinbase with an arbitrary reserved value); listed: F02, F30."),
+         "target, both block readers and byte-exact re-serialisation are compared. Found and fixed through this check: F31, F32, F30a, F49 (segwit coinbase with an arbitrary reserved value), F99 (Block.parse_bytesio on a stream that does not start at the block; the pre-positioned read runs under a 300 s wall-clock limit); listed: F02, F30."),
    design_ref='DESIGN.md §5 C06',
    note=COMMON_NOTE + "SHA-256 is executable reference code validated by vectors and by agreement with hashlib on every case (nothing is proved about it). "
         "strict=True refusals of non-standard content are counted, not violations."),
@@ -245,7 +245,7 @@ CHECKS = {
          "(fee, fee_per_kb, inputs, change amounts or the error kind; random.randint and numpy dirichlet draws recorded), sweep, "
          "Transaction.bumpfee and WalletTransaction.bumpfee (incl. the extra-input fallback). Every created transaction is additionally checked against the sentences of C07 on the objects and on the raw "
          "bytes parsed by the Lean parser (recipients once with exact script, other outputs to change keys, inputs distinct/unspent/confirmed, "
-         "signs and verifies). Found and fixed: F39, F41, F42, F48 (duplicate explicit inputs), F88 (fee rate below the network minimum with many inputs; the theorem create_rate_limits is now about the rate of the final fee, and the signed bytes are checked to pay a rate within 10% of the limits); listed: F40 (invalid explicit input lists are accepted)."),
+         "signs and verifies). Found and fixed: F39, F41, F42, F48 (duplicate explicit inputs), F88 (fee rate below the network minimum with many inputs; the theorem create_rate_limits is now about the rate of the final fee, and the signed bytes are checked to pay a rate within 10% of the limits), F89 (sweep with several rest targets; sweepPlan guard + sweep_one_rest), F98 (estimate_size of nested segwit inputs; nestedScriptSig in the model); listed: F40 (invalid explicit input lists are accepted)."),
    design_ref='DESIGN.md §5 C07',
    note=COMMON_NOTE + "Rows with equal (confirmations, value) may come back from SQLite in either order; selections differing only in such ties count as equal. send()'s fee re-estimation is exercised through C08 histories, not modelled."),
  'C09': dict(
@@ -261,7 +261,7 @@ CHECKS = {
          "key_for_path, keys becoming used, reopen); every key handed out and every leaf row is re-derived from the seed by the Lean BIP32 model "
          "and its address recomputed by the Lean address model; keys.path_expand is compared on partial paths with all hardened spellings; "
          "wallets are re-created from seed, mnemonic, xprv and (watch-only) account xpub and must reproduce the addresses. "
-         "Histories now also ask for the account public key in the middle (public_master), add an account on a second network, give a watch-only wallet its private master key and reopen it, and run the index machine on cosigner wallets of multisigs. Found and fixed: F43, F44, F54, F55, F56."),
+         "Histories now also ask for the account public key in the middle (public_master), add an account on a second network, give a watch-only wallet its private master key and reopen it, and run the index machine on cosigner wallets of multisigs. Found and fixed: F43, F44, F54, F55, F56, F97 (new_key with a cosigner ID on a single-signature wallet)."),
    design_ref='DESIGN.md §5 C09',
    note=COMMON_NOTE + "Histories run on single-signature HD wallets; multisig key paths are covered by the table and path theorems and by the cosigner-wallet comparison of C10."),
  'C10': dict(
